@@ -4,7 +4,7 @@ import json, os, shutil, sys, re
 pid, k, detected = sys.argv[1], sys.argv[2], sys.argv[3]
 src = "/tmp/wt/%s/_out/m%s" % (pid, k)
 prop = pid[:3]
-off = {"": 0, "b": 2, "c": 4, "d": 6, "e": 9, "f": 11}[pid[3:]]
+off = {"": 0, "b": 2, "c": 4, "d": 6, "e": 9, "f": 11, "g": 13}[pid[3:]]
 dst = "/verif/seeded/%s-m%s" % (prop, str(int(k) + off))
 os.makedirs(dst, exist_ok=True)
 for f in ("patch.diff", "demo.py"):
